@@ -102,7 +102,10 @@ fn extract_class(
     } else {
         None
     };
-    let mut body_name_stmts: HashMap<Core, (usize, Core)> = match body {
+    // The position is a pair: the slot as before, then a tie-breaker (0 statement, 1 generated
+    // constructor, 2 function) so that no two statements ever compare equal and the emitted order
+    // does not depend on the iteration order of the map.
+    let mut body_name_stmts: HashMap<Core, ((usize, usize), Core)> = match body {
         Some(Core::Block { statements }) => statements,
         Some(other) => vec![other],
         None => vec![],
@@ -112,16 +115,16 @@ fn extract_class(
     .map(|(i, stmt)| {
         // function two further to leave place for init
         let (pos, key) = match stmt {
-            Core::FunDef { id, .. } => (i + 2, Core::Id { lit: id.clone() }),
+            Core::FunDef { id, .. } => ((i + 2, 2), Core::Id { lit: id.clone() }),
             Core::FunDefOp { op, .. } => (
-                i + 2,
+                (i + 2, 2),
                 Core::Id {
                     lit: format!("{op}"),
                 },
             ),
-            Core::VarDef { var, .. } => (i, var.deref().clone()),
+            Core::VarDef { var, .. } => ((i, 0), var.deref().clone()),
             _ => (
-                i,
+                (i, 0),
                 Core::Id {
                     lit: String::from("@"),
                 },
@@ -147,9 +150,9 @@ fn extract_class(
             body_name_stmts
                 .values()
                 .filter(|(_, stmt)| matches!(stmt, Core::VarDef { .. }))
-                .map(|(pos, _)| *pos + 1)
+                .map(|((pos, _), _)| (*pos + 1, 1))
                 .max()
-                .unwrap_or(0) // otherwise always first
+                .unwrap_or((0, 1)) // otherwise always first
         };
 
         body_name_stmts.insert(init, (pos, new_init));
